@@ -73,6 +73,21 @@ func streamC20(h *H) {
 				fl = a5GenFlags(h, paths, true)
 				o := a5GenFlags(h, paths, false)
 				fl.Ex, fl.IEx = o.Ex, o.IEx
+			case r == 2 || r == 3: // a case-insensitive pattern file only: a snapshot path with swapped case
+				p := "/" + h.Pick(paths)
+				if up := strings.ToUpper(p); up != p {
+					p = up
+				} else {
+					p = strings.ToLower(p)
+				}
+				if h.Intn(3) == 0 {
+					p = p[1:] // relative
+				}
+				if r == 2 {
+					fl.IInFile = [][]string{{"# insensitive includes", p}}
+				} else {
+					fl.IExFile = [][]string{{p, ""}}
+				}
 			case r < 11:
 				fl = a5GenFlags(h, paths, true)
 			default:
